@@ -260,8 +260,9 @@ Fixpoint tbl_get (t : table) (r : Z) : option row :=
   | (r', d) :: t' => if Z.eqb r' r then Some d else tbl_get t' r
   end.
 
-(* SortKey.values = tuple(c.get_cell_value(row_id) for c in columns); None if a column or the row is
-   missing (the real code raises then) *)
+(* SortKey.values = tuple(table.get_column(c).get_cell_value(row_id) for c in column ids): the cells are read
+   through the table by column id when the key is built; None if a column or the row is missing (the
+   real code raises then) *)
 Fixpoint sort_values (t : table) (spec : sortspec) (r : Z) : option (list val) :=
   match spec with
   | [] => Some []
@@ -309,7 +310,7 @@ Definition sort_rows (t : table) (spec : sortspec) (l : list Z) : option (list Z
 (* twowaymap.py                                                                                *)
 
 Inductive kind := KSingle | KStrict | KSet | KList | KLookupSet.
-Inductive exn := TypeErr | ValueErr.
+Inductive exn := TypeErr | ValueErr | OtherErr.   (* OtherErr: any other exception class *)
 
 Definition is_single (k : kind) : bool := match k with KSingle | KStrict => true | _ => false end.
 (* containers that hash their elements *)
@@ -343,6 +344,12 @@ Section Dict.
     match m with
     | [] => [(k, v)]
     | (k', v') :: t => if keq k' k then (k', v) :: ddel t k else (k', v') :: dset t k v
+    end.
+  (* an in-place change of the object found under k (the first entry with an equal key); nothing if absent *)
+  Fixpoint dupd (m : dict) (k : K) (v : A) : dict :=
+    match m with
+    | [] => []
+    | (k', v') :: t => if keq k' k then (k', v) :: t else (k', v') :: dupd t k v
     end.
 End Dict.
 Arguments dict : clear implicits.
@@ -398,7 +405,7 @@ Section Bins.
             | None => AOk (dset keq m key (one value)) None (Some value)
             | Some b =>
                 if memb aeq value (items b) then AOk m None None
-                else AOk (dset keq m key (mkBin (items b ++ [value]) [])) None (Some value)
+                else AOk (dupd keq m key (mkBin (items b ++ [value]) [])) None (Some value)   (* in place *)
             end
       end.
 
@@ -416,22 +423,26 @@ Section Bins.
             | [] => Some m
             end
           else if hashes_values kd && negb (ahash value) then None
-          else if memb aeq value (items b) then
-            match remove_first aeq value (items b) with
+          else
+            (* self.remove(stored, value) changes the stored container in place (only if the value is
+               there); then `if not stored: del mapping[key]` *)
+            let present := memb aeq value (items b) in
+            match (if present then remove_first aeq value (items b) else items b) with
             | [] => Some (ddel keq m key)
-            | it => Some (dset keq m key (mkBin it []))
+            | it => Some (if present then dupd keq m key (mkBin it []) else m)
             end
-          else Some m
       end.
 
   (* remove_key: mapping.pop(key, ()) ; None = TypeError.  CPython's dict.pop returns the default
      without hashing the key when the dict is empty. *)
-  Definition remove_key (m : dict K (bin A)) (key : K) : option (dict K (bin A) * list A) :=
+  Definition remove_key (kd : kind) (m : dict K (bin A)) (key : K) : option (dict K (bin A) * list A) :=
     if match m with [] => true | _ => false end then Some (m, [])
     else if negb (khash key) then None
     else match dget keq m key with
          | None => Some (m, [])
-         | Some b => Some (ddel keq m key, items b)
+         | Some b => Some (ddel keq m key,
+                           if is_single kd then match items b with s :: _ => [s] | [] => [] end   (* (stored,) *)
+                           else items b)
          end.
 End Bins.
 Arguments AOk {K A}. Arguments ARaise {K A}.
@@ -459,22 +470,31 @@ Section TwoWay.
   Definition rm_bwd (m : dict R (bin L)) (r : R) (l : L) : dict R (bin L) * bool :=
     match remove_item req leq rhash lhash lk m r l with Some m' => (m', true) | None => (m, false) end.
 
+  (* the except-branch of insert: bring _fwd back in sync with _bwd, then re-raise.  An exception raised
+     inside the handler replaces the original one, as in Python. *)
+  Definition tw_rollback (t : twm) (fwd1 : dict L (bin R)) (left : L) (right_removed right_added : option R)
+    (e : exn) : twm * outcome :=
+    match (match right_added with
+           | Some a => remove_item leq req lhash rhash rk fwd1 left a
+           | None => Some fwd1 end) with
+    | None => (mkTwm fwd1 (bwd t), Raise TypeErr)
+    | Some fwd2 =>
+        match right_removed with
+        | Some a => match add_item leq req lhash rhash lfmt rk fwd2 left a with
+                    | AOk m _ _ => (mkTwm m (bwd t), Raise e)
+                    | ARaise e' => (mkTwm fwd2 (bwd t), Raise e')
+                    end
+        | None => (mkTwm fwd2 (bwd t), Raise e)
+        end
+    end.
+
   (* TwoWayMap.insert *)
   Definition tw_insert (t : twm) (left : L) (right : R) : twm * outcome :=
     match add_item leq req lhash rhash lfmt rk (fwd t) left right with
     | ARaise e => (t, Raise e)
     | AOk fwd1 right_removed right_added =>
         match add_item req leq rhash lhash rfmt lk (bwd t) right left with
-        | ARaise e =>
-            (* except: bring _fwd back in sync, re-raise *)
-            let fwd2 := match right_added with
-                        | Some a => fst (rm_fwd fwd1 left a)
-                        | None => fwd1 end in
-            let fwd3 := match right_removed with
-                        | Some a => match add_item leq req lhash rhash lfmt rk fwd2 left a with
-                                    | AOk m _ _ => m | ARaise _ => fwd2 end
-                        | None => fwd2 end in
-            (mkTwm fwd3 (bwd t), Raise e)
+        | ARaise e => tw_rollback t fwd1 left right_removed right_added e
         | AOk bwd1 left_removed _ =>
             let '(bwd2, ok1) := match right_removed with
                                 | Some a => rm_bwd bwd1 a left
@@ -508,7 +528,7 @@ Section TwoWay.
     end.
 
   Definition tw_remove_left (t : twm) (left : L) : twm * outcome :=
-    match remove_key leq lhash (fwd t) left with
+    match remove_key leq lhash rk (fwd t) left with
     | None => (t, Raise TypeErr)
     | Some (fwd1, removed) =>
         let '(bwd1, ok) := rm_each_bwd (bwd t) removed left in
@@ -516,7 +536,7 @@ Section TwoWay.
     end.
 
   Definition tw_remove_right (t : twm) (right : R) : twm * outcome :=
-    match remove_key req rhash (bwd t) right with
+    match remove_key req rhash lk (bwd t) right with
     | None => (t, Raise TypeErr)
     | Some (bwd1, removed) =>
         let '(fwd1, ok) := rm_each_fwd (fwd t) removed right in
@@ -634,9 +654,12 @@ Fixpoint zip_groups (cols : list colspec) (cells : list val) : list (list val) :
   end.
 
 (* get_new_keys_iter(rec): [cells] are the rec's values of the lookup columns, in column order *)
+Definition new_keys_iter (cols : list colspec) (cells : list val) : list key :=
+  if uses_contains cols then product (zip_groups cols cells) else [map extract cells].
+
+(* set(get_new_keys_iter(rec)) for a CONTAINS mapping; the single key of a simple mapping *)
 Definition new_keys (cols : list colspec) (cells : list val) : list key :=
-  if uses_contains cols then dedup vals_eqb (product (zip_groups cols cells))
-  else [map extract cells].
+  if uses_contains cols then dedup vals_eqb (new_keys_iter cols cells) else new_keys_iter cols cells.
 
 (* the keys under which a row with these cells can be found: what the index should hold *)
 Definition keys_of (cols : list colspec) (cells : list val) : list key :=
